@@ -134,8 +134,22 @@ class Session(object):
         self.info = {"partial": False, "spartial": False, "burst": False, "dirs": set(), "rxmulti": False, "bytes": 0, "msgpath": False}
         self.clients = []
         self.server = None
-        self.server = stacking.TcpServerStack(name="server", ha=("127.0.0.1", 0), bufsize=sb,
-                                              rxPkts=RecDeque(), txPkts=RecDeque())
+        srvcls = stacking.TcpServerStack
+        if cfg.get("framed") and not self.binary:
+            # the documented extension point: a server stack whose parserize() frames the stream itself (one packet per
+            # `<...>` message, None while a message is incomplete) instead of taking everything that is buffered
+            from ioflo.aio.proto import packeting as _pk
+
+            class FramedServerStack(stacking.TcpServerStack):
+                def parserize(self, raw):
+                    end = bytes(raw).find(b">")
+                    if end < 0:
+                        return None
+                    return _pk.Packet(stack=self, packed=bytearray(raw[:end + 1]))
+            srvcls = FramedServerStack
+            self.info["framed"] = True
+        self.server = srvcls(name="server", ha=("127.0.0.1", 0), bufsize=sb,
+                             rxPkts=RecDeque(), txPkts=RecDeque())
         port = self.server.handler.ha[1]
         # small kernel buffers (inherited by accepted sockets) in most cases, so that non-blocking sends of
         # queued packets are really partial / would-block on loopback instead of being swallowed whole
@@ -629,6 +643,7 @@ def _cases(step):
         "binary": st.sampled_from([False, False, False, True]),
         "bufs": st.integers(0, len(BUFS) - 1),
         "parting": st.sampled_from([False, True]),
+        "framed": st.sampled_from([False, False, True]),
         "steps": st.one_of(st.lists(step, min_size=1, max_size=60), st.lists(step, min_size=12, max_size=60),
                            st.lists(step, min_size=12, max_size=60)),
     })
@@ -636,7 +651,7 @@ def _cases(step):
 
 def to_case(v):
     return {"nclients": v["nclients"], "binary": v["binary"], "bufs": v["bufs"], "parting": bool(v.get("parting")),
-            "steps": [list(s) for s in v["steps"]]}
+            "framed": bool(v.get("framed")), "steps": [list(s) for s in v["steps"]]}
 
 
 def plan(tier):
@@ -668,6 +683,8 @@ def work(shard, seed, tier):
             classes.append("rx-packet-spanning-several-queued")
         if info["msgpath"]:
             classes.append("message-path-used")
+        if info.get("framed"):
+            classes.append("server-frames-the-stream-itself")
         if info.get("stray"):
             classes.append("stray-destination-queued")
         if info.get("parting"):
